@@ -139,6 +139,7 @@ type batchOpts struct {
 	variants []string // runner variants in order; the last is the oracle side (default o,r)
 	onlyCalls bool
 	race      bool // build the runner with the race detector
+	files     int  // number of regular source files the programs are spread over (each with its own import style)
 	timeout time.Duration
 }
 
@@ -233,21 +234,52 @@ func (b *batch) cleanup() {
 	_ = os.RemoveAll(b.dir)
 }
 
-// splitFiles distributes programs over files: regular and _test.go
+// render distributes programs over files: regular files p.go (q.go, r.go when opts.files > 1, each with
+// its own import style) and p_test.go for programs flagged TestFile.
 func (b *batch) render() *stageFailure {
-	var reg, test []*Program
+	nfiles := b.opts.files
+	if nfiles < 1 {
+		nfiles = 1
+	}
+	reg := make([][]*Program, nfiles)
+	var test []*Program
+	i := 0
 	for _, p := range expandTwins(b.progs) {
 		if p.TestFile {
 			test = append(test, p)
-		} else {
-			reg = append(reg, p)
+			continue
+		}
+		// a twin stays in the file of its original
+		if strings.HasSuffix(p.Name, "M") && i > 0 {
+			reg[(i-1)%nfiles] = append(reg[(i-1)%nfiles], p)
+			continue
+		}
+		reg[i%nfiles] = append(reg[i%nfiles], p)
+		i++
+	}
+	if i == 0 && len(test) > 0 {
+		// only test-file programs left (isolation of a failing batch): a package needs a non-test file
+		reg[0], test = test, nil
+		for _, p := range b.progs {
+			p.TestFile = false
 		}
 	}
-	write := func(mode, dir, file string, progs []*Program) *stageFailure {
+	styleAt := func(k int) importStyle {
+		if k == 0 {
+			return b.opts.style
+		}
+		for si, st := range importStyles {
+			if st == b.opts.style {
+				return importStyles[(si+k)%len(importStyles)]
+			}
+		}
+		return importStyles[k%len(importStyles)]
+	}
+	write := func(mode, dir, file string, st importStyle, progs []*Program) *stageFailure {
 		if len(progs) == 0 {
 			return nil
 		}
-		src, err := renderFile(mode, "s", b.opts.style, progs, b.opts.extraS)
+		src, err := renderFile(mode, "s", st, progs, b.opts.extraS)
 		if err != nil {
 			_ = os.WriteFile(filepath.Join(b.dir, dir, file+".broken"), []byte(src), 0o644)
 			return &stageFailure{Stage: "render", Diag: err.Error()}
@@ -262,11 +294,14 @@ func (b *batch) render() *stageFailure {
 		}
 		return nil
 	}
+	names := []string{"p.go", "q.go", "r.go", "t.go"}
 	for _, m := range []struct{ mode, dir string }{{"S", "s"}, {"R", "r"}} {
-		if f := write(m.mode, m.dir, "p.go", reg); f != nil {
-			return f
+		for k := 0; k < nfiles && k < len(names); k++ {
+			if f := write(m.mode, m.dir, names[k], styleAt(k), reg[k]); f != nil {
+				return f
+			}
 		}
-		if f := write(m.mode, m.dir, "p_test.go", test); f != nil {
+		if f := write(m.mode, m.dir, "p_test.go", styleAt(1), test); f != nil {
 			return f
 		}
 	}
@@ -429,7 +464,8 @@ func (b *batch) writeRunner() error {
 			for _, v := range vs {
 				call := e.Call
 				if v == "m" {
-					call = strings.ReplaceAll(call, "$P"+p.Name, "o."+p.Name+"M")
+					call = strings.ReplaceAll(call, p.Name, p.Name+"M")
+					call = strings.ReplaceAll(call, "$P", "o.")
 				}
 				call = strings.ReplaceAll(call, "$P", v+".")
 				for i := 9; i >= 0; i-- {
@@ -557,11 +593,13 @@ func (t *tools) runBatchX(progs []*Program, opts batchOpts, reducing bool) (*bat
 		return res, b
 	}
 	res.compileT = time.Since(t0)
-	if o, err := os.ReadFile(filepath.Join(b.dir, "o", "p.go")); err == nil {
-		res.outO = string(o)
-	}
-	if u, err := os.ReadFile(filepath.Join(b.dir, "u", "p.go")); err == nil {
-		res.outU = string(u)
+	for _, fn := range []string{"p.go", "q.go", "r.go", "t.go", "p_test.go"} {
+		if o, err := os.ReadFile(filepath.Join(b.dir, "o", fn)); err == nil {
+			res.outO += string(o)
+		}
+		if u, err := os.ReadFile(filepath.Join(b.dir, "u", fn)); err == nil {
+			res.outU += string(u)
+		}
 	}
 	if f := t.buildPkgs(b); f != nil {
 		res.fail = f
